@@ -792,7 +792,7 @@ pub fn main(a: &Args) {
             // churn: many contents, almost nothing held, so the "not yet interned / just released" paths of new() race
             stress(&mut rep, a.usize("threads", 16), a.usize("ops", 1_000_000), 6, seed + shard + 2000, true);
             stress(&mut rep, 4, a.usize("ops", 1_000_000) / 2, 4, seed + shard + 3000, false);
-            rendezvous_drops(&mut rep, (a.usize("threads", 16) / 2).max(1), (a.usize("ops", 1_000_000) / 40).max(10_000), seed + shard);
+            rendezvous_drops(&mut rep, (a.usize("threads", 16) / 2).max(1), (a.usize("ops", 1_000_000) / 40).clamp(10_000, 150_000), seed + shard);
             rep.nontrivial(1);
             rep.nontrivial(2);
             rep.sample(json!({"stress": {"threads": a.usize("threads", 16), "ops": a.usize("ops", 1_000_000)}}));
